@@ -14,7 +14,7 @@ PROPS = {
         mc=[dict(tla="Restake_MC.tla", cfg="Restake_MC.cfg", tier="quick", timeout=300),
             dict(tla="Restake_MC.tla", cfg="Restake_MC_denoms.cfg", tier="quick", timeout=300),
             dict(tla="Restake_MC.tla", cfg="Restake_MC_huge.cfg", tier="quick", timeout=300),
-            dict(tla="Restake_MC.tla", cfg="Restake_MC_2acc.cfg", tier="thorough", timeout=1500)],
+            dict(tla="Restake_MC.tla", cfg="Restake_MC_2acc.cfg", tier="thorough", timeout=1500, workers=8)],
         gen=dict(tla="Restake_Gen.tla", cfg="Restake_Gen.cfg", depth=22, num=dict(quick=250, thorough=4000), timeout=900),
         drive=dict(family="restake", mode="c16", nrand=dict(quick=350, thorough=8000)),
         trace=dict(tla="Restake_Trace.tla", cfg="Restake_Trace_C16.cfg"),
@@ -27,7 +27,7 @@ PROPS = {
     "C07": dict(
         mc=[dict(tla="FeedsVote_MC.tla", cfg="FeedsVote_MC.cfg", tier="quick", timeout=300),
             dict(tla="FeedsVote_MC.tla", cfg="FeedsVote_MC_wrap.cfg", tier="quick", timeout=300),
-            dict(tla="FeedsVote_MC.tla", cfg="FeedsVote_MC_deep.cfg", tier="thorough", timeout=1500)],
+            dict(tla="FeedsVote_MC.tla", cfg="FeedsVote_MC_deep.cfg", tier="thorough", timeout=1500, workers=8)],
         gen=dict(tla="FeedsVote_Gen.tla", cfg="FeedsVote_Gen.cfg", depth=20, num=dict(quick=250, thorough=4000), timeout=900),
         drive=dict(family="restake", mode="c07", nrand=dict(quick=350, thorough=8000)),
         trace=dict(tla="FeedsVote_Trace.tla", cfg="FeedsVote_Trace_C07.cfg"),
